@@ -67,16 +67,16 @@ def run(ctx):
         scratch = os.path.join(ctx.work, "files")
         os.makedirs(scratch, exist_ok=True)
         t1 = os.path.join(ctx.work, "ssrb.ndjson")
-        lib.run_driver(exe, ["ssrb", t1, 60 if q else 220, 0 if q else 1, scratch], env=env, timeout=1200)
+        lib.run_driver(exe, ["ssrb", t1, 60 if q else 160, 0 if q else 1, scratch], env=env, timeout=1200)
         t2 = os.path.join(ctx.work, "zoom.ndjson")
-        lib.run_driver(exe, ["zoom", t2, 160 if q else 3000, 0 if q else 1], env=env, timeout=1200)
+        lib.run_driver(exe, ["zoom", t2, 160 if q else 2000, 0 if q else 1], env=env, timeout=1200)
         t3 = os.path.join(ctx.work, "zoomr.ndjson")
-        lib.run_driver(exe, ["zoomr", t3, 160 if q else 3000, 0 if q else 1], env=env, timeout=1200)
+        lib.run_driver(exe, ["zoomr", t3, 160 if q else 2000, 0 if q else 1], env=env, timeout=1200)
         traces = [("Trace_Rebin", t1, "Config"), ("Trace_Zoom", t2, "ZIn"), ("Trace_Zoom", t3, "RIn")]
         # beyond the property's sentences: the other index maps (self-contained lines)
-        for (mode, n_q, n_t, mod, b) in (("inv", 120, 1500, "Trace_Rebin", "Inv"), ("ext", 100, 1000, "Trace_Rebin", "Ext"),
-                                         ("down", 100, 1500, "Trace_Rebin", "Down"), ("interp", 40, 400, "Trace_Rebin", "Interp"),
-                                         ("zview", 100, 1500, "Trace_Zoom", "VIn")):
+        for (mode, n_q, n_t, mod, b) in (("inv", 120, 800, "Trace_Rebin", "Inv"), ("ext", 100, 500, "Trace_Rebin", "Ext"),
+                                         ("down", 100, 500, "Trace_Rebin", "Down"), ("interp", 40, 200, "Trace_Rebin", "Interp"),
+                                         ("zview", 100, 800, "Trace_Zoom", "VIn")):
             t = os.path.join(ctx.work, mode + ".ndjson")
             lib.run_driver(exe, [mode, t, n_q if q else n_t, 0 if q else 1], env=env, timeout=1200)
             traces.append((mod, t, b))
